@@ -8,7 +8,13 @@
 //!                      (bypass b) (no-simplify b) (no-eq-break b) (no-proof-search b)
 //!                      (save none|"dir") (files <node>..))
 //!       <node> = (file "name" "text") | (special "name") | (dir "name" <node>..)
-//!       `none` = the option is not on the command line; the <node>s are the path arguments, in order
+//!              | (link "name" (file "text")|special|dangling|loop) | (link "name" (dir <node>..))
+//!       `none` = the option is not on the command line; the <node>s are the path arguments, in order.
+//!       Symbolic links as in the op `files_sort` (ops/files.rs; followed since /repo 8bcb21d): the targets
+//!       live outside the working directory; `(file "text")` -> a regular file with that text (directly
+//!       or through a second link), `special` -> /dev/null, `dangling` -> a missing path or the link
+//!       itself (ELOOP), `loop` -> "." (not realisable as an argument), `(dir ..)` -> a directory with
+//!       these entries.  `(special "name")` is a socket (a link to /dev/null where the path is too long).
 //!     result   (exit0 (warnings "Kind"..) (files ("dir/name.p" "bytes")..))     exit status 0
 //!            | (error <status>) | (error <status> (files ..))   (the latter if something was written)
 //!            | (panic) | (signal n) | (timeout)
@@ -21,7 +27,8 @@
 //! external_decompose_small, external_roles) give the programs / specification / user guide / proof
 //! outline and the flag values; the trees are PRINTED (real Display) into files whose names, nesting
 //! and argument order decide the roles (explicit files, one directory, directory + files, extra and
-//! misleading files, missing files, shuffled).
+//! misleading files, missing files, shuffled); role files and directories are sometimes symbolic links
+//! (the roles must not shift), a dangling link or a link to the containing directory makes the command fail.
 //!
 //! The binary is $ANTHEM_CLI_EXE, scratch space $ANTHEM_CLI_SCRATCH (as for `cli_run`).
 use super::Op;
@@ -46,15 +53,36 @@ type R<T> = Result<T, String>;
 
 // ------------------------------------------------------------------ file trees
 #[derive(Clone, Debug)]
+enum Target {
+    File(String),
+    Special,
+    Dangling,
+    Loop,
+}
+#[derive(Clone, Debug)]
 enum Node {
     File(String, String),
     Special(String),
     Dir(String, Vec<Node>),
+    Link(String, Target),
+    LinkDir(String, Vec<Node>),
+}
+/// where the targets of links live: a sibling of the working directory (never walked)
+struct Store {
+    dir: PathBuf,
+    next: usize,
+}
+impl Store {
+    fn fresh(&mut self) -> R<PathBuf> {
+        std::fs::create_dir_all(&self.dir).map_err(|e| format!("mkdir {}: {e}", self.dir.display()))?;
+        self.next += 1;
+        Ok(self.dir.join(format!("t{}", self.next)))
+    }
 }
 impl Node {
     fn name(&self) -> &str {
         match self {
-            Node::File(n, _) | Node::Special(n) | Node::Dir(n, _) => n,
+            Node::File(n, _) | Node::Special(n) | Node::Dir(n, _) | Node::Link(n, _) | Node::LinkDir(n, _) => n,
         }
     }
     fn sexp(&self) -> Sexp {
@@ -66,6 +94,19 @@ impl Node {
                 v.extend(cs.iter().map(|c| c.sexp()));
                 tagged("dir", v)
             }
+            Node::Link(n, t) => tagged(
+                "link",
+                vec![
+                    s(n),
+                    match t {
+                        Target::File(text) => tagged("file", vec![s(text)]),
+                        Target::Special => a("special"),
+                        Target::Dangling => a("dangling"),
+                        Target::Loop => a("loop"),
+                    },
+                ],
+            ),
+            Node::LinkDir(n, cs) => tagged("link", vec![s(n), tagged("dir", cs.iter().map(|c| c.sexp()).collect())]),
         }
     }
     fn parse(e: &Sexp) -> R<Node> {
@@ -75,26 +116,81 @@ impl Node {
             Some(("dir", rest)) if !rest.is_empty() => {
                 Ok(Node::Dir(conv::string_of(&rest[0])?, rest[1..].iter().map(Node::parse).collect::<R<_>>()?))
             }
+            Some(("link", [n, t])) => {
+                let n = conv::string_of(n)?;
+                match t {
+                    Sexp::A(x) if x == "special" => Ok(Node::Link(n, Target::Special)),
+                    Sexp::A(x) if x == "dangling" => Ok(Node::Link(n, Target::Dangling)),
+                    Sexp::A(x) if x == "loop" => Ok(Node::Link(n, Target::Loop)),
+                    _ => match t.tag() {
+                        Some(("file", [text])) => Ok(Node::Link(n, Target::File(conv::string_of(text)?))),
+                        Some(("dir", cs)) => Ok(Node::LinkDir(n, cs.iter().map(Node::parse).collect::<R<_>>()?)),
+                        _ => Err(format!("link target: {}", t.to_text())),
+                    },
+                }
+            }
             _ => Err(format!("node: {}", e.to_text())),
         }
     }
-    /// create the node below `dir`
-    fn create(&self, dir: &Path) -> R<()> {
+    /// create the node below `dir`; `top`: the node is a path argument
+    fn create(&self, dir: &Path, store: &mut Store, top: bool) -> R<()> {
+        use std::os::unix::fs::symlink;
         let bad = |n: &str| n.is_empty() || n == "." || n == ".." || n.contains('/') || n.contains('\0');
         if bad(self.name()) {
             return Err(format!("file name {:?}", self.name()));
         }
         let p = dir.join(self.name());
+        let sym = |t: &Path, p: &Path| symlink(t, p).map_err(|e| format!("symlink {}: {e}", p.display()));
         match self {
             Node::File(_, text) => std::fs::write(&p, text.as_bytes()).map_err(|e| format!("write {}: {e}", p.display())),
-            // a symbolic link below an argument directory is not followed by walkdir: not is_file()
-            Node::Special(_) => std::os::unix::fs::symlink("/dev/null", &p).map_err(|e| format!("symlink {}: {e}", p.display())),
+            // a socket (std only); where the path is too long for sun_path, a link to a device
+            Node::Special(_) => {
+                if std::os::unix::net::UnixListener::bind(&p).is_err() {
+                    sym(Path::new("/dev/null"), &p)?;
+                }
+                Ok(())
+            }
             Node::Dir(_, cs) => {
                 std::fs::create_dir(&p).map_err(|e| format!("mkdir {}: {e}", p.display()))?;
                 for c in cs {
-                    c.create(&p)?;
+                    c.create(&p, store, false)?;
                 }
                 Ok(())
+            }
+            Node::Link(_, Target::File(text)) => {
+                let t = store.fresh()?;
+                std::fs::write(&t, text.as_bytes()).map_err(|e| format!("write {}: {e}", t.display()))?;
+                if store.next % 2 == 0 {
+                    // through a second link
+                    let t2 = store.fresh()?;
+                    sym(&t, &t2)?;
+                    sym(&t2, &p)
+                } else {
+                    sym(&t, &p)
+                }
+            }
+            Node::Link(_, Target::Special) => sym(Path::new("/dev/null"), &p),
+            Node::Link(n, Target::Dangling) => {
+                let t = store.fresh()?;
+                if store.next % 2 == 0 {
+                    sym(&t, &p) // missing target
+                } else {
+                    sym(Path::new(n), &p) // the link itself: ELOOP
+                }
+            }
+            Node::Link(_, Target::Loop) => {
+                if top {
+                    return Err("a loop link as an argument is not realisable (walkdir's ancestor stack is empty)".into());
+                }
+                sym(Path::new("."), &p)
+            }
+            Node::LinkDir(_, cs) => {
+                let t = store.fresh()?;
+                std::fs::create_dir(&t).map_err(|e| format!("mkdir {}: {e}", t.display()))?;
+                for c in cs {
+                    c.create(&t, store, false)?;
+                }
+                sym(&t, &p)
             }
         }
     }
@@ -265,8 +361,9 @@ fn run_cli_verify(e: &Sexp) -> R<Sexp> {
     let cwd = top.join("in");
     std::fs::create_dir_all(&cwd).map_err(|e| format!("scratch: {e}"))?;
     let result = (|| -> R<Sexp> {
+        let mut store = Store { dir: top.join("store"), next: 0 };
         for n in &case.files {
-            n.create(&cwd)?;
+            n.create(&cwd, &mut store, true)?;
         }
         // the output directory: relative to the working directory, never one of the inputs
         let out_dir = match &case.save {
@@ -447,12 +544,19 @@ fn layout(rng: &mut Rng, roles: &Roles) -> Vec<Node> {
     if let Some(o) = &roles.proof_outline {
         named.push(Node::File(rng.pick(PO_NAMES).to_string(), o.clone()));
     }
-    // extras: files of bucket `other`, a symbolic link with a tempting name, a program that sorts last
+    // extras: files of bucket `other`, a socket / a link to a device with a tempting name, a program that
+    // sorts last, a dangling link / a link to the containing directory (the command fails)
     let mut extras: Vec<Node> = vec![];
     for _ in 0..rng.weighted(&[5, 3, 2]) {
-        match rng.weighted(&[6, 1, 2, 1, 1]) {
+        match rng.weighted(&[24, 4, 8, 4, 4, 2, 1]) {
             0 => extras.push(Node::File(rng.pick(OTHER_NAMES).to_string(), extra_text(rng))),
-            1 => extras.push(Node::Special("0link.lp".to_string())),
+            1 => extras.push(if rng.chance(50) {
+                Node::Special("0link.lp".to_string())
+            } else {
+                Node::Link("0link.lp".to_string(), Target::Special)
+            }),
+            5 => extras.push(Node::Link(rng.pick(&["gone.txt", "zzzz.lp", "0.spec"]).to_string(), Target::Dangling)),
+            6 => extras.push(Node::Link(rng.pick(&["self", "0.lp"]).to_string(), Target::Loop)),
             // a further program / user guide / outline / specification AFTER the intended ones
             2 => extras.push(Node::File("zzz.lp".to_string(), extra_text(rng))),
             3 => extras.push(Node::File("zzz.ug".to_string(), "input: zzz/0.\n".to_string())),
@@ -464,7 +568,7 @@ fn layout(rng: &mut Rng, roles: &Roles) -> Vec<Node> {
         v.into_iter().filter(|n| seen.insert(n.name().to_string())).collect()
     };
     let dname = rng.pick(&["d", "task", "dir.lp", "in.d"]).to_string();
-    match rng.weighted(&[30, 30, 15, 10, 8, 7]) {
+    let nodes = match rng.weighted(&[30, 30, 15, 10, 8, 7]) {
         // explicit files in role order, extras after them
         0 => {
             named.extend(extras);
@@ -531,6 +635,22 @@ fn layout(rng: &mut Rng, roles: &Roles) -> Vec<Node> {
             let v = dedup(named);
             if rng.chance(50) && !v.is_empty() { vec![Node::Dir(dname, v)] } else { v }
         }
+    };
+    nodes.into_iter().map(|n| linkify(rng, n, true)).collect()
+}
+
+/// F23 (/repo 8bcb21d): a regular file becomes a link to a regular file with the same text (7%), a
+/// directory a link to a directory with the same entries (10%): walkdir follows them, the roles stay.
+/// A link to the containing directory cannot be an argument: there it becomes a dangling link.
+fn linkify(rng: &mut Rng, n: Node, top: bool) -> Node {
+    match n {
+        Node::File(name, text) if rng.chance(7) => Node::Link(name, Target::File(text)),
+        Node::Dir(name, cs) => {
+            let cs = cs.into_iter().map(|c| linkify(rng, c, false)).collect();
+            if rng.chance(10) { Node::LinkDir(name, cs) } else { Node::Dir(name, cs) }
+        }
+        Node::Link(name, Target::Loop) if top => Node::Link(name, Target::Dangling),
+        other => other,
     }
 }
 
